@@ -92,6 +92,11 @@ class Climatology(Adapter):
                     d["tspan"] = tuple(of_epoch(int(x)).strftime("%m/%d/%Y %H:%M:%S") for x in (a, b))
                 elif m.get("tfmt") == "datetime":
                     d["tspan"] = (of_epoch(int(a)), of_epoch(int(b)))
+                elif m.get("tfmt") == "mixed":      # the two ends written in different forms (text and an object)
+                    import pandas as pd
+                    d["tspan"] = (of_epoch(int(a)).isoformat(), pd.Timestamp(of_epoch(int(b))))
+                elif m.get("tfmt") == "mixed2":
+                    d["tspan"] = (of_epoch(int(a)), np.datetime64(int(b), "s"))
                 elif m.get("tfmt") == "timestamp":
                     import pandas as pd
                     d["tspan"] = [pd.Timestamp(of_epoch(int(a))), pd.Timestamp(of_epoch(int(b)))]
@@ -168,7 +173,7 @@ def gen_member(rng, kind="any", zspan="any", fspan="any"):
         if rng.random() < 0.15:
             b = a
         m["tspan"] = [a, b]
-        m["tfmt"] = rng.choice(["iso", "dt64", "mdy", "datetime", "timestamp"])
+        m["tfmt"] = rng.choice(["iso", "dt64", "mdy", "datetime", "timestamp", "mixed", "mixed2"])
     else:
         vals = sorted({pv(kind, s) for s in POOL})
         a, b = F(rng.choice(vals)), F(rng.choice(vals))
